@@ -174,13 +174,31 @@ def _check_param_store(ctx, repo):
             walks.append((n, n.value))
         if isinstance(n, ast.Call) and callee_name(n) == "set_context_var" and n.args and not innermost(n.args[0]):
             walks.append((n, n.args[0]))
+    # ... or a call of another method of the context class that does such a store for the same key
+    kcls_methods = {g.name: g for g in repo.module("interpreter").funcs.values() if g.cls == f.cls and g.parent is None and g.name != f.name}
+    for c in calls_in(f.node):
+        if isinstance(c.func, ast.Attribute) and dotted(c.func.value) == "self" and c.func.attr in kcls_methods and any(isinstance(a, ast.Name) and a.id == kparam for a in c.args):
+            g = kcls_methods[c.func.attr]
+            if any(isinstance(n, ast.Subscript) and isinstance(n.ctx, (ast.Store, ast.Del)) and not innermost(n.value) and isinstance(n.slice, ast.Name) and n.slice.id in g.params()
+                   for n in walk_local(g.node)):
+                walks.append((c, c))
     ctx.floor("C03-R7", "stores into a scope other than the innermost one", len(walks), 1)
 
     def not_reserved(e, pol):
         return isinstance(e, ast.Compare) and len(e.ops) == 1 and src(e.left) == kparam and "reserved_fn_symbols" in src(e.comparators[0]) and \
             ((isinstance(e.ops[0], ast.NotIn) and pol) or (isinstance(e.ops[0], ast.In) and not pol))
     for n, scope in walks:
-        facts = atoms_at(n, f.node)
+        facts = list(atoms_at(n, f.node))
+        # operands of an enclosing `A and B` that precede the site hold when it is evaluated
+        q = n
+        while q is not None and not isinstance(q, ast.stmt):
+            p_ = getattr(q, "_parent", None)
+            if isinstance(p_, ast.BoolOp) and isinstance(p_.op, ast.And):
+                for v_ in p_.values:
+                    if v_ is q:
+                        break
+                    facts += split_conj(v_, True)
+            q = p_
         ok = any(not_reserved(e, pol) for e, pol in facts)
         if not ok and isinstance(scope, ast.Name):
             # the scope was chosen earlier: every way of choosing it that is compatible with the guards here must have excluded parameter names
